@@ -17,6 +17,7 @@ type Site struct {
 	// Statement patterns: the explicit instance occupies [Start, End) of the
 	// container's statement list.
 	Start, End int
+	InstLen    int // number of statements of the instantiated plus side
 	Depth      int // nesting depth below the file
 }
 
@@ -292,6 +293,8 @@ func (r *rewriter) container(n, c *Tree, cf string, optional bool, depth int) *T
 		}
 		out.Site = siteIdx + 1
 		out.Orig = c.SetField(cf, &Tree{Kind: KList, RT: listRT, Kids: origElems})
+		st := r.res.Sites[siteIdx]
+		out.SpanField, out.SpanLo, out.SpanHi = cf, st.Start, st.Start+st.InstLen
 		r.res.Sites[siteIdx].Repl = out
 	}
 	return out
@@ -369,7 +372,7 @@ func (r *rewriter) stmtRun(cont *Tree, elems []*Tree, nestedOpt bool, depth int,
 		return build(r), nil
 	}
 	idx := len(r.res.Sites)
-	r.res.Sites = append(r.res.Sites, Site{Index: idx, Slot: cont.TypeName() + "." + containerField(cont), Node: cont, Env: env, Start: start, End: end, Depth: depth})
+	r.res.Sites = append(r.res.Sites, Site{Index: idx, Slot: cont.TypeName() + "." + containerField(cont), Node: cont, Env: env, Start: start, End: end, InstLen: len(inst), Depth: depth})
 	out := build(r)
 	return out, &r.res.Sites[idx]
 }
@@ -476,4 +479,25 @@ func (r *rewriter) instantiateList(t *Tree, env *Env, depth int) ([]*Tree, error
 		out = append(out, x)
 	}
 	return out, nil
+}
+
+// RelaxedMatchesAt reports whether node n itself (for statement patterns:
+// the statement list of container n) would be an instance if the
+// metavariable rules (kind, consistency) were dropped.
+func (p *Pattern) RelaxedMatchesAt(n *Tree) bool {
+	if n == nil || n.Kind != KNode {
+		return false
+	}
+	m := &Matcher{Holes: p.Spec.Holes, Relaxed: true}
+	if p.Kind == PStmts {
+		if cf := containerField(n); cf != "" {
+			if l := n.Field(cf); l.Kind == KList {
+				_, ok := m.matchList(wrapped(p.Minus), l.Kids, nil)
+				return ok
+			}
+		}
+		return false
+	}
+	_, ok := m.Match(p.Minus, n, nil)
+	return ok
 }
